@@ -23,6 +23,24 @@ CLAIMS = {
         engine='E1-tables'),
 }
 
+CLAIMS['C04'] = dict(
+    category='other',
+    text='Static shape rules over every causality site: zero exits are '
+    'implied acausal, kernel values are returned only under T > S, every '
+    'time difference used as denominator/root/positive parameter has an '
+    'entailed strict sign, the four-term time kernel has the required '
+    '(end point, sign, guard) set with a CAS-certified antiderivative, and '
+    'mat[i,j] = bilform(trial_j, test_i) on the inline, serial and pool '
+    'paths.  Decides the exact-zero and structure clauses for all inputs; '
+    'does not decide the rounding bound.',
+    design_ref='DESIGN.md section 3 E3/E7, section 4 C04',
+    note='Trusted: ast, the linear fact domain (Fourier-Motzkin), sympy, '
+    'the role table (parameter names).  Not decided: -1e-15 rounding bound '
+    'and strict positivity (numerical).',
+    technique='path-sensitive AST walk with linear-inequality entailment '
+    '(guard dominance), def-use index binding, CAS identity certificates',
+    engine='E3-causal')
+
 PENDING = 'rule set not yet implemented in this build (see DESIGN.md Appendix F for the order)'
 NA = {
     'C13':
@@ -39,6 +57,10 @@ ENGINES = [
      'evidence, known findings, exit codes'),
     ('E1-tables', 'stbem_static/tables.py',
      'literal quadrature tables: moments in interval arithmetic'),
+    ('E3-causal', 'stbem_static/causal.py',
+     'causality guards and time-difference positivity over absint.py '
+     '(path facts, Fourier-Motzkin entailment); kernels.py CAS certificates; '
+     'indexing.py index spaces'),
 ]
 
 
